@@ -9,10 +9,10 @@ distance / speed in the reference.
 Assertions (p = asserted order, see ORDER TABLE):
   rate      the median of the three adjacent observed orders log2(E_k/E_k+1) (maximum if only two are measurable:
             both levels in [4*floor_k, 1e-2]) is >= p-0.8; and E_k <= floor_k + 64*E_j*2^-(p*(k-j)) for all j<k with
-            E_j in the window (see check_rate for why single pairs are not asserted).  floor_k = max(1e-12,
-            16*eps*H*sqrt(work*n_k)) is the rounding floor: H = size of the system / smallest separation, work =
+            E_j in the window (see check_rate for why single pairs are not asserted).  floor_k = max(4e-12,
+            64*eps*H*sqrt(work*n_k)) is the rounding floor: H = size of the system / smallest separation, work =
             elementary stages per step; E_k is the maximum over three epochs T/3, 2T/3, T.
-  converge  E_3 <= 1e-3 and E_3 <= E_0 + floor  (a scheme converging to a wrong trajectory fails 'rate').
+  converge  E_3 <= 1e-2 and E_3 <= E_0 + floor  (a scheme converging to a wrong trajectory fails 'rate').
   adaptive  IAS15 / BS: error within the advertised accuracy class, tightening the tolerance does not make it worse.
   time      sim.t after the run equals the requested time (to accumulated rounding of t += dt).
 Regimes: R1 = planet/star mass ratio 1e-8..1e-7 (eps^2 terms below the floor) exposes the first exponent of a
@@ -33,7 +33,7 @@ LEVEL = "exploration"
 RULE = ("A case is (system, integrator configuration, regime, direction of time, test-particle partition). "
         "Fixed-step schemes: the error against the quad-precision reference is measured at dt0*2^-k, k=0..3; the "
         "case is non-trivial iff the reference end state differs from the initial state by > 1e-3 (scaled) and at "
-        "least two adjacent observed orders were measurable (both errors inside [4 x rounding floor, 1e-2]), so "
+        "least two adjacent observed orders were measurable (both errors inside [4 x rounding floor, 1e-2]; floor >= 4e-12), so "
         "that the robust-slope assertion was evaluated on measured numbers (largest deficit is in stats).  "
         "Adaptive schemes / user ODEs: non-trivial iff the system moved and the error was compared with the class "
         "bound for two tolerances.  Distinct by case hash.")
@@ -45,17 +45,17 @@ ASSUMPTIONS = [
     "correctors asserted at the documented order p (p+1 is observed); kernels+correctors as (p,4); second corrector "
     "only as not lowering the order; orders above 6 asserted as >= 6 (IAS15 fixed step >= 10) because double "
     "precision cannot exhibit them for dt <= P/16",
-    "order is certified only inside the window [rounding floor >= 1e-12, 1e-2] of scaled error, for dt <= P_min/16, "
+    "order is certified only inside the window [4 x rounding floor (>= 1.6e-11), 1e-2] of scaled error, for dt <= P_min/16, "
     "horizon 2-4 inner periods, e <= 0.3, separations >= 8 mutual Hill radii (R1/R2)",
     "type-0 test particles are massless, type-1 test particles keep their mass (docs/simulationvariables.md)",
 ]
 VARIANTS = ["avx512"]
 
-FLOOR = 1e-12
+FLOOR = 4e-12
 CEIL = 1e-2
 SLACK = 0.8
 A_DIP = float(os.environ.get("VERIF_C01_A", "64.0"))      # the env override exists only to calibrate the margin
-KR = 16.0
+KR = 64.0
 EPS = 2.220446049250313e-16
 LEVELS = 4
 
@@ -141,7 +141,7 @@ def work(cfg):
         return SABA_STAGES[cfg_get(cfg, "ri_saba.type")]
     if fam == "eos":
         return EOS_STAGES[cfg_get(cfg, "ri_eos.phi0")] * EOS_STAGES[cfg_get(cfg, "ri_eos.phi1")] * \
-            cfg_get(cfg, "ri_eos.n", 2) * 2
+            cfg_get(cfg, "ri_eos.n", 2) * 4
     if fam == "janus":
         return JANUS_STAGES[cfg_get(cfg, "ri_janus.order")]
     if fam == "ias15fixed":
@@ -175,6 +175,10 @@ def dt0_div(cfg, regime):
         # (measured: E(P/16) a factor 10 below the asymptotic line), so they start one level finer
         g = 2 if cfg_get(cfg, "ri_eos.phi0") in ("pmlf4", "pmlf6", "plf7_6_4") else 1
         return max({2: 256, 4: 32}.get(o1, 16), 16 * g) * f
+    if fam == "whfast" and cfg_get(cfg, "ri_whfast.coordinates") == "barycentric" and regime == "R2":
+        # Kepler orbits about the barycentre with the total mass: the error constant grows with the offset of the
+        # barycentre from the star (sum m_i a_i / M) relative to the innermost orbit; 0.5 at P/16 for 5 planets
+        return 64
     return 16 * f
 
 
@@ -327,7 +331,8 @@ def check_rate(Es, floors, p, ctx, what, details):
          is insensitive to one such level, while a scheme of lower order has all its slopes low.)
     R-b  safety net for schemes that leave the window after one level: for every level j in the window and every
          finer level k:  E_k <= floor_k + A * E_j * 2^-(p*(k-j)),  A = 64 (4x the deepest dip observed).
-    R-c  convergence to the right answer: E_last <= 1e-3 and E_last <= E_first + floor."""
+    R-c  convergence to the right answer: E_last <= 1e-2 (inside or below the window, where R-a sees a constant
+         error as slope 0) and E_last <= E_first + floor."""
     n = len(Es)
     usable = [k for k in range(n) if 4.0 * floors[k] <= Es[k] <= CEIL]
     slopes = [math.log2(Es[k] / Es[k + 1]) for k in usable if (k + 1) in usable]
@@ -360,7 +365,7 @@ def check_rate(Es, floors, p, ctx, what, details):
                                 % (what, p, 2 ** j, a, 2 ** k, b, math.log2(a / b) / (k - j) if b > 0 else 99.0,
                                    bound, A_DIP, p * (k - j)), errors=Es, floors=floors, order=p, **details)
     last, first = Es[-1], Es[0]
-    if not last <= 1e-3:
+    if not last <= CEIL:
         raise Violation("%s: does not converge to the true solution: error %.3e at the finest step" % (what, last),
                         errors=Es, order=p, **details)
     if not last <= first + floors[-1]:
